@@ -71,6 +71,7 @@ class Actor:
         self.exc = None
         self.result = None
         self.pending_crash_after = False
+        self.opcount = {}  # per-op-name counters (faults addressed as "the n-th delete")
 
     @property
     def dead(self):
@@ -195,6 +196,7 @@ class Sim:
         a.nops += 1
         if mutating:
             a.nmut += 1
+        a.opcount[op] = a.opcount.get(op, 0) + 1
         self.clock += self.op_latency
         directive = None
         if counts and self.faults:
@@ -236,6 +238,7 @@ class Sim:
         a = actor or self.current()
         a.nops = 0
         a.nmut = 0
+        a.opcount = {}
         self.faults = [dict(f) for f in faults]
 
     def disarm(self):
@@ -247,14 +250,19 @@ class Sim:
                 continue
             if f.get("actor", a.name) != a.name:
                 continue
-            which = f.get("count", "mut")
-            idx = a.nmut if which == "mut" else a.nops
-            if which == "mut" and not mutating:
-                continue
             if f.get("op") and f["op"] != op:
                 continue
-            if idx != f["at"]:
-                continue
+            if "nth" in f:
+                # the n-th operation of this name since arm()
+                if not f.get("op") or a.opcount.get(op, 0) != f["nth"]:
+                    continue
+            else:
+                which = f.get("count", "mut")
+                idx = a.nmut if which == "mut" else a.nops
+                if which == "mut" and not mutating:
+                    continue
+                if idx != f["at"]:
+                    continue
             f["done"] = True
             d = dict(f)
             if d["kind"] == "err_before" and "exc" not in d:
